@@ -258,7 +258,7 @@ def known_expr(findings, meta):
 
 def run_obligation(res, spec, findings, must_raise=False, check_c04_only=False):
     shims.install()
-    ex = Explorer(max_paths=spec.get("max_paths", 60000), path_ops=spec.get("path_ops", 6000))
+    ex = Explorer(max_paths=spec.get("max_paths", 60000), path_ops=spec.get("path_ops", 60000), path_wall_s=120)
 
     def fn(ex):
         doc, expected, meta = build_document(ex, spec)
